@@ -517,6 +517,56 @@ func staticCone(fn *ssa.Function, depth int) []*ssa.Function {
 }
 
 func substitutionsIn(fn *ssa.Function, out map[int64]int64) {
+	// lookup helpers over a constant table of pairs: `for _, s := range table { if s.A == c { return s.B, true } }`
+	// with `var table = [...]struct{ A, B byte }{ {'.', 'v'}, … }` (only its declaration assigns it)
+	if len(fn.Params) >= 1 {
+		p := fn.Params[len(fn.Params)-1]
+		if bt, ok := p.Type().Underlying().(*types.Basic); ok && bt.Kind() == types.Uint8 {
+			allInstrs(fn, func(in ssa.Instruction) {
+				bo, ok := in.(*ssa.BinOp)
+				if !ok || bo.Op != token.EQL {
+					return
+				}
+				var fld ssa.Value
+				if bo.X == ssa.Value(p) {
+					fld = bo.Y
+				} else if bo.Y == ssa.Value(p) {
+					fld = bo.X
+				}
+				if fld == nil {
+					return
+				}
+				g, cmpField := tableFieldOf(fld)
+				if g == nil {
+					return
+				}
+				// the field returned on the true edge
+				retField := ""
+				allInstrs(fn, func(in2 ssa.Instruction) {
+					ret, ok := in2.(*ssa.Return)
+					if !ok || len(ret.Results) == 0 {
+						return
+					}
+					if !edgeDominatesInstr(bo, ret) {
+						return
+					}
+					if g2, f2 := tableFieldOf(ret.Results[0]); g2 == g {
+						retField = f2
+					}
+				})
+				if retField == "" || curWorld == nil {
+					return
+				}
+				for _, row := range constStructRows(curWorld, g) {
+					a, okA := row[cmpField]
+					b, okB := row[retField]
+					if okA && okB {
+						out[a] = b
+					}
+				}
+			})
+		}
+	}
 	// pure mapping helpers: func(b byte) byte { switch b { case C: return K ... default: return b } }
 	if sig := fn.Signature; sig.Params().Len() == 1 && sig.Results().Len() == 1 && len(fn.Params) >= 1 {
 		p := fn.Params[len(fn.Params)-1]
@@ -741,6 +791,40 @@ func codecRegistry(w *World) map[types.Object]bool {
 				}
 			}
 		}
+	}
+	if len(registry) == 0 && fromCode != nil {
+		// ... or a function of the package that returns the list (`candidates := allEncoders()`)
+		ast.Inspect(fromCode.Body, func(x ast.Node) bool {
+			call, ok := x.(*ast.CallExpr)
+			if !ok {
+				return true
+			}
+			id, ok := call.Fun.(*ast.Ident)
+			if !ok {
+				return true
+			}
+			fobj, ok := p.TypesInfo.Uses[id].(*types.Func)
+			if !ok || fobj.Pkg() != p.Types {
+				return true
+			}
+			if fd := w.Decl(fobj); fd != nil && fd.Body != nil {
+				ast.Inspect(fd.Body, func(y ast.Node) bool {
+					cl, ok := y.(*ast.CompositeLit)
+					if !ok {
+						return true
+					}
+					for _, el := range cl.Elts {
+						if id2, ok := el.(*ast.Ident); ok {
+							if v, ok := p.TypesInfo.Uses[id2].(*types.Var); ok && v.Parent() == p.Types.Scope() {
+								registry[v] = true
+							}
+						}
+					}
+					return true
+				})
+			}
+			return true
+		})
 	}
 	return registry
 }
@@ -1045,4 +1129,162 @@ func c08LengthAlgebra(w *World, r *Report) {
 		}
 		r.Check(bad == "", "R08.9", key, w.Pos(encF.Pos()), fmt.Sprintf("input lengths 0..%d: Encode's output length is determined by the input length; Decode accepts each and returns the input length; loop-state periods {%s}; lengths %v", K, periodsStr(ep.Periods), ep.Out[:16]), bad)
 	}
+}
+
+// tableFieldOf: v is `elem.F` where elem is an element of a package-level array/slice of structs that only its
+// declaration assigns (read through a range loop or an index): the table and the field name.
+func tableFieldOf(v ssa.Value) (*ssa.Global, string) {
+	var base ssa.Value
+	var name string
+	switch x := v.(type) {
+	case *ssa.Field:
+		st, ok := x.X.Type().Underlying().(*types.Struct)
+		if !ok {
+			return nil, ""
+		}
+		base, name = x.X, st.Field(x.Field).Name()
+	case *ssa.UnOp:
+		fa, ok := x.X.(*ssa.FieldAddr)
+		if !ok {
+			return nil, ""
+		}
+		base, name = fa.X, fieldVarOf(fa).Name()
+	default:
+		return nil, ""
+	}
+	// base: an element of the table — *IndexAddr(global or load of it), Index(load), or a copy of one in a local
+	seen := map[ssa.Value]bool{}
+	var find func(b ssa.Value, d int) *ssa.Global
+	find = func(b ssa.Value, d int) *ssa.Global {
+		if b == nil || d > 6 || seen[b] {
+			return nil
+		}
+		seen[b] = true
+		switch y := b.(type) {
+		case *ssa.Global:
+			if frozenGlobal(y) {
+				return y
+			}
+		case *ssa.UnOp:
+			return find(y.X, d+1)
+		case *ssa.IndexAddr:
+			return find(y.X, d+1)
+		case *ssa.Index:
+			return find(y.X, d+1)
+		case *ssa.Alloc:
+			// a local copy of the element (or of the whole array, for range over an array value)
+			if y.Referrers() != nil {
+				for _, ref := range *y.Referrers() {
+					if st, ok := ref.(*ssa.Store); ok && st.Addr == ssa.Value(y) {
+						if g := find(st.Val, d+1); g != nil {
+							return g
+						}
+					}
+				}
+			}
+		case *ssa.Phi:
+			for _, e := range y.Edges {
+				if g := find(e, d+1); g != nil {
+					return g
+				}
+			}
+		}
+		return nil
+	}
+	return find(base, 0), name
+}
+
+// edgeDominatesInstr: does the true edge of the branch on cond dominate `in`?
+func edgeDominatesInstr(cond ssa.Value, in ssa.Instruction) bool {
+	ci, ok := cond.(ssa.Instruction)
+	if !ok {
+		return false
+	}
+	b := ci.Block()
+	ifi, ok := b.Instrs[len(b.Instrs)-1].(*ssa.If)
+	if !ok || ifi.Cond != cond {
+		return false
+	}
+	return edgeDominates(b, 0, in.Block())
+}
+
+// constStructRows: the rows of a package-level array/slice literal of structs with constant integer (byte, rune)
+// fields, as field name -> value.
+func constStructRows(w *World, g *ssa.Global) []map[string]int64 {
+	if g == nil {
+		return nil
+	}
+	for _, p := range w.Pkgs {
+		if p.Types != g.Pkg.Pkg {
+			continue
+		}
+		for _, f := range p.Syntax {
+			for _, d := range f.Decls {
+				gd, ok := d.(*ast.GenDecl)
+				if !ok || gd.Tok != token.VAR {
+					continue
+				}
+				for _, sp := range gd.Specs {
+					vs := sp.(*ast.ValueSpec)
+					for i, name := range vs.Names {
+						if p.TypesInfo.Defs[name] != g.Object() || i >= len(vs.Values) {
+							continue
+						}
+						lit, ok := unparen(vs.Values[i]).(*ast.CompositeLit)
+						if !ok {
+							return nil
+						}
+						var elem types.Type
+						switch lt := p.TypesInfo.TypeOf(lit).Underlying().(type) {
+						case *types.Array:
+							elem = lt.Elem()
+						case *types.Slice:
+							elem = lt.Elem()
+						}
+						if elem == nil {
+							return nil
+						}
+						st, ok := elem.Underlying().(*types.Struct)
+						if !ok {
+							return nil
+						}
+						var rows []map[string]int64
+						for _, el := range lit.Elts {
+							if kv, ok := el.(*ast.KeyValueExpr); ok {
+								el = kv.Value
+							}
+							rl, ok := unparen(el).(*ast.CompositeLit)
+							if !ok {
+								return nil
+							}
+							row := map[string]int64{}
+							for j, fe := range rl.Elts {
+								fname := ""
+								var fval ast.Expr
+								if fkv, ok := fe.(*ast.KeyValueExpr); ok {
+									id, ok := fkv.Key.(*ast.Ident)
+									if !ok {
+										return nil
+									}
+									fname, fval = id.Name, fkv.Value
+								} else if j < st.NumFields() {
+									fname, fval = st.Field(j).Name(), fe
+								}
+								tv := p.TypesInfo.Types[fval]
+								if tv.Value == nil {
+									return nil
+								}
+								if iv, exact := constant.Int64Val(constant.ToInt(tv.Value)); exact {
+									row[fname] = iv
+								}
+							}
+							rows = append(rows, row)
+						}
+						return rows
+					}
+				}
+			}
+		}
+	}
+	return nil
 }
